@@ -330,6 +330,67 @@ func metricDrift(backend string, shards int, dir string) []failure {
 	return fs
 }
 
+// metricDriftOther: a complete store (or delete) of ANOTHER key on another shard lands between the two counter
+// updates of a store. At quiescence the bytes metric must equal byteSize (no lost update).
+func metricDriftOther(backend string, shards int, dir string) []failure {
+	var fs []failure
+	if shards == 1 {
+		return fs // the other operation would need the shard lock the interrupted one holds
+	}
+	cfg := config.NewDefault()
+	ctx, cancel := context.WithCancel(context.Background())
+	defer cancel()
+	metrics.Global.Cache.BytesCached.Set(0)
+	metrics.Global.Cache.CacheEntries.Set(0)
+	c := newCache(backend, cfg, 1<<30, shards, ctx, dir)
+	defer c.Destroy()
+	k := cache.FromString("drift-key")
+	var others []cache.CacheKey
+	for i := 0; len(others) < 3 && i < 500; i++ {
+		o := cache.FromString(fmt.Sprintf("other-%d", i))
+		if c.VerifShardOf(o.Hex) != c.VerifShardOf(k.Hex) {
+			others = append(others, o)
+		}
+	}
+	if len(others) < 3 {
+		return fs
+	}
+	store := func(key cache.CacheKey, id, n int) {
+		if e, err := c.Cache(key, bytes.NewReader(mkBody(id, 1, n)), time.Now().Add(time.Hour), meta{id, 1, n}); err == nil && e.Data != nil {
+			e.Data.Close()
+		}
+	}
+	store(others[2], 3, 120) // deleted during the second interrupted operation
+	for round, during := range []func(){
+		func() { store(others[0], 1, 200) },                     // a store of another key inside a store
+		func() { c.Delete(others[2]); store(others[1], 2, 70) }, // a delete and a store inside an overwriting store
+	} {
+		fired := false
+		cache.VerifSetYield(func(point string) {
+			if point == "counter.betweenHalves" && !fired {
+				fired = true
+				cache.VerifSetYield(nil)
+				during()
+			}
+		})
+		if round == 0 {
+			store(k, 9, 500)
+		} else {
+			store(k, 9, 900) // an overwrite with another length
+		}
+		cache.VerifSetYield(nil)
+		bs, metric := c.VerifByteSize(), metrics.Global.Cache.BytesCached.Get()
+		if fired && bs != metric {
+			fs = append(fs, failure{"metric-drift-other-key", backend, shards, fmt.Sprintf("quiescent after %s during which another key was stored/deleted: cache size %d bytes, reported bytes metric %d",
+				[]string{"a store", "an overwriting store"}[round], bs, metric)})
+		}
+		if !fired {
+			fs = append(fs, failure{"metric-drift-other-key", backend, shards, "yield point counter.betweenHalves was never reached (hook removed?)"})
+		}
+	}
+	return fs
+}
+
 type slowReader struct {
 	b    []byte
 	step int
@@ -379,6 +440,13 @@ func main() {
 			os.RemoveAll(mdir)
 			total++
 			dist["metric-drift/"+backend]++
+			if shards > 1 {
+				odir := filepath.Join(*flagOut, fmt.Sprintf("mo-%s-%d", backend, shards))
+				failures = append(failures, metricDriftOther(backend, shards, odir)...)
+				os.RemoveAll(odir)
+				total++
+				dist["metric-drift-other-key/"+backend]++
+			}
 			dir := filepath.Join(*flagOut, fmt.Sprintf("s-%s-%d", backend, shards))
 			fs, n := stress(backend, shards, dir, r, dur)
 			failures = append(failures, fs...)
@@ -390,7 +458,7 @@ func main() {
 	}
 	out := map[string]any{
 		"harness": "cacheconc", "seed": *flagSeed, "tier": *flagTier, "total": total, "distinct": total, "distinct_nontrivial": total,
-		"rule":         "forced schedule 'store A of key k held in the middle of its source, 1 or 3 further stores of k start' + forced schedule 'a janitor cycle between the two counter updates of a store' (bytes metric = byteSize at the quiescent moment after) + concurrent stress (3 writers with slow sources, 4 chunked slow readers, deletes / evictions / cleanup cycles on 4 keys, self-describing checksummed bodies) x backends {memory,file} x shards {1,3,64}; every body read must be one complete stored version of its key, delivered with that version's size and object metadata",
+		"rule":         "forced schedule 'store A of key k held in the middle of its source, 1 or 3 further stores of k start' + forced schedule 'a janitor cycle between the two counter updates of a store' (bytes metric = byteSize at the quiescent moment after) + forced schedule 'a store / delete of another key on another shard between the two counter updates of a store / delete' (no lost update) + concurrent stress (3 writers with slow sources, 4 chunked slow readers, deletes / evictions / cleanup cycles on 4 keys, self-describing checksummed bodies) x backends {memory,file} x shards {1,3,64}; every body read must be one complete stored version of its key, delivered with that version's size and object metadata",
 		"distribution": map[string]any{"scenario": dist, "bodies_read_under_stress": map[string]int{"all": reads}},
 		"samples":      []any{map[string]any{"scenario": "same-key-overlap", "backend": "file", "shards": 1}},
 		"files":        []string{}, "readable": []any{},
